@@ -386,14 +386,22 @@ impl RefMsg {
                 RefItem::Mac256 { creds, len, flip } => {
                     let input = with_len(&b, b.len() + 4 + len - 20);
                     let mut mac = hmac_sha256(&creds.key(), &input);
-                    mac.truncate(*len);
+                    // `len` outside 16..=32 or not a multiple of 4 gives an *irregular* attribute (the
+                    // correct HMAC prefix, or the HMAC followed by filler): never valid, see
+                    // integrity_status
+                    mac.resize(*len, 0xEE);
                     if let Some((i, m)) = flip {
                         let l = mac.len();
-                        mac[i % l] ^= m;
+                        if l > 0 {
+                            mac[i % l] ^= m;
+                        }
                     }
                     b.extend_from_slice(&MI256.to_be_bytes());
                     b.extend_from_slice(&(*len as u16).to_be_bytes());
                     b.extend_from_slice(&mac);
+                    while b.len() % 4 != 0 {
+                        b.push(0);
+                    }
                 }
                 RefItem::Fp { flip } => {
                     let c = crc32_with_len(&b, (b.len() + 8 - 20) as u16) ^ FP_XOR;
